@@ -282,9 +282,18 @@ def gen_layout(r, nops):
         if z_ != 'afterproc' and s_[0] in ('data', 'labeldata'):
             sub_pos += len(ref_tokenize(', '.join(datas[s_[-1]])))
     local_label = 'zsl9' if (in_sub and r.random() < 0.7) else None
+    split_done = False
     for _ in range(nops):
         if dead:
             break
+        if in_sub and not split_done and ops and r.random() < 0.2:
+            # the procedure returns here; the main program goes on in a straight line: plain RESTORE, then more READs
+            split_done = True
+            ops.append('@@MAIN@@')
+            ops.append('RESTORE')
+            cur = 0
+            expect.append(('restore',))
+            continue
         k = r.random()
         if k < 0.7:
             nv = r.choice([1, 1, 2, 3])
@@ -328,7 +337,7 @@ def gen_layout(r, nops):
             cur = 0
             expect.append(('restore',))
         else:
-            if label_pos and not in_sub:
+            if label_pos and (not in_sub or split_done):
                 l = r.choice(sorted(label_pos))
                 ops.append(f'RESTORE {l}')
                 cur = label_pos[l]
@@ -337,10 +346,18 @@ def gen_layout(r, nops):
                 ops.append(f'RESTORE {local_label}')
                 cur = sub_pos
                 expect.append(('restore',))
-    body = '\n'.join(ops)
+    if '@@MAIN@@' in ops:
+        k_ = ops.index('@@MAIN@@')
+        body = '\n'.join(ops[:k_])
+        body_main = '\n'.join(ops[k_ + 1:])
+    else:
+        body = '\n'.join(ops)
+        body_main = None
     lines = before[:]
     if in_sub:
         lines.append('zreader')
+        if body_main is not None:
+            lines.append(body_main)
     else:
         lines.append(body)
     lines.append('END')
